@@ -64,13 +64,61 @@ func c04Run(s *c04Scn, segName string) verdict {
 	prompts := map[string]string{}
 	mode := func(i int) string { return fmt.Sprintf("m%d", i) }
 
-	for i := 1; i <= s.N; i++ {
+	// one tree in three (without twins) has a level that is told from its parent by a not-contains text only: the leaf with the
+	// highest number shows "p<parent>(s)# ", and the parent's pattern is loose enough to match that too, were it not for its
+	// not-contains entry "(s)"
+	sub := 0
+
+	if s.ID%3 == 1 && !(len(s.Twin) == 2 && s.Twin[0] != 0) {
+		for i := s.N; i >= 2 && sub == 0; i-- {
+			leaf := true
+
+			for c := 1; c <= s.N; c++ {
+				if s.Parent[c-1] == i {
+					leaf = false
+				}
+			}
+
+			if leaf {
+				sub = i
+			}
+		}
+	}
+
+	promptOf := func(letter byte, i int) string {
 		shown := i
 		if len(s.Twin) == 2 && s.Twin[1] == i {
 			shown = s.Twin[0]
 		}
 
-		lv := &network.PrivilegeLevel{Name: c04Name(s, i), Pattern: fmt.Sprintf(`(?im)^p%d[>#]\s?$`, shown)}
+		if i == sub {
+			return fmt.Sprintf("%c%d(s)# ", letter, s.Parent[i-1])
+		}
+
+		return fmt.Sprintf("%c%d# ", letter, shown)
+	}
+	patternOf := func(letter byte, i int) string {
+		shown := i
+		if len(s.Twin) == 2 && s.Twin[1] == i {
+			shown = s.Twin[0]
+		}
+
+		switch {
+		case i == sub:
+			return fmt.Sprintf(`(?im)^%c%d\(s\)[>#]\s?$`, letter, s.Parent[i-1])
+		case sub != 0 && i == s.Parent[sub-1]:
+			return fmt.Sprintf(`(?im)^%c%d\S*[>#]\s?$`, letter, shown)
+		}
+
+		return fmt.Sprintf(`(?im)^%c%d[>#]\s?$`, letter, shown)
+	}
+
+	for i := 1; i <= s.N; i++ {
+		lv := &network.PrivilegeLevel{Name: c04Name(s, i), Pattern: patternOf('p', i)}
+		if sub != 0 && i == s.Parent[sub-1] {
+			lv.NotContains = []string{"(s)"}
+		}
+
 		if p := s.Parent[i-1]; p != 0 {
 			lv.PreviousPriv = c04Name(s, p)
 			lv.Escalate = fmt.Sprintf("up-to %d", i)
@@ -83,7 +131,7 @@ func c04Run(s *c04Scn, segName string) verdict {
 		}
 
 		levels[lv.Name] = lv
-		prompts[mode(i)] = fmt.Sprintf("p%d# ", shown)
+		prompts[mode(i)] = promptOf('p', i)
 	}
 
 	cli := &simdev.CLI{Prompts: prompts, Mode: mode(s.Start), StartMode: mode(s.Start), Banner: "hello\r\n"}
@@ -219,12 +267,7 @@ func c04Run(s *c04Scn, segName string) verdict {
 			pipe.Unlock()
 
 			for i := 1; i <= s.N; i++ {
-				shown := i
-				if len(s.Twin) == 2 && s.Twin[1] == i {
-					shown = s.Twin[0]
-				}
-
-				d.PrivilegeLevels[c04Name(s, i)].Pattern = fmt.Sprintf(`(?im)^%c%d[>#]\s?$`, letter, shown)
+				d.PrivilegeLevels[c04Name(s, i)].Pattern = patternOf(letter, i)
 			}
 
 			d.UpdatePrivileges()
